@@ -23,6 +23,9 @@ type c14Case struct {
 	Perm    []int // Perm[i] = release rank of update i
 	Workers int
 	InBurst bool // the group-creating update is part of the burst
+	// Preempt: the worker processing update PreUpd is suspended at the PreNth-th
+	// acquisition of a store lock on its way (-1 = no preemption).
+	PreUpd, PreNth int
 }
 
 func perms(n int) [][]int {
@@ -67,12 +70,37 @@ func c14Enumerate(maxK int) []c14Case {
 
 var c14Cases = c14Enumerate(3)
 
+// c14Preempt: for bursts of two updates, every kind sequence and release order,
+// each update preempted at each of its first six store-lock acquisitions.
+func c14PreemptCases() []c14Case {
+	var out []c14Case
+	for s := 0; s < 9; s++ {
+		kinds := []int{s % 3, s / 3}
+		for _, pm := range perms(2) {
+			for upd := 0; upd < 2; upd++ {
+				for nth := 0; nth < 6; nth++ {
+					for _, wk := range []int{2, 4} {
+						out = append(out, c14Case{K: 2, Kinds: kinds, Perm: pm, Workers: wk, PreUpd: upd, PreNth: nth})
+					}
+				}
+			}
+		}
+	}
+	return out
+}
+
+var c14Pre = c14PreemptCases()
+
 func c14Gen(seed uint64, tier string) *Plan {
 	var c c14Case
 	rng := NewRng(seed)
 	if int(seed) < len(c14Cases) {
 		c = c14Cases[seed]
+		c.PreUpd, c.PreNth = -1, -1
+	} else if int(seed) < len(c14Cases)+len(c14Pre) {
+		c = c14Pre[int(seed)-len(c14Cases)]
 	} else {
+		c.PreUpd, c.PreNth = -1, -1
 		// beyond the enumeration: sampled k = 4..5, optional creation inside the burst
 		c.K = rng.Range(4, 5)
 		c.Kinds = make([]int, c.K)
@@ -131,6 +159,9 @@ func c14Gen(seed uint64, tier string) *Plan {
 		}
 		p.Actions = append(p.Actions, Action{At: at, Kind: "post", Alerts: []PAlert{a}, Str: kind})
 		p.Holds = append(p.Holds, Hold{Site: "dispatch.worker.recv", Match: fmt.Sprintf("%s@%d", lk, int64(at)), Delay: Dur(c.Perm[i]+1)*10*time.Millisecond + 3})
+		if c.PreUpd == i {
+			p.Holds = append(p.Holds, Hold{Site: "auto.store", Match: fmt.Sprintf("%s@%d", lk, int64(at)), Nth: c.PreNth, Delay: 45*time.Millisecond + 7})
+		}
 		lastKind = kind
 		lastAt = at
 	}
@@ -139,7 +170,7 @@ func c14Gen(seed uint64, tier string) *Plan {
 	p.Actions = append(p.Actions, Action{At: settle + time.Millisecond, Kind: "get_alerts", Str: "settled"})
 	p.Horizon = burst + gi + 30*time.Second
 	p.Actions = append(p.Actions, Action{At: p.Horizon - time.Second, Kind: "get_groups", Str: "final"})
-	p.Params = map[string]any{"case_key": fmt.Sprintf("k%d kinds%v perm%v w%d b%v", c.K, c.Kinds, c.Perm, c.Workers, c.InBurst), "labels": lk, "last_kind": lastKind, "last_at": int64(lastAt), "burst": int64(burst), "k": c.K, "perm": c.Perm, "kinds": c.Kinds, "workers": c.Workers, "in_burst": c.InBurst}
+	p.Params = map[string]any{"case_key": fmt.Sprintf("k%d kinds%v perm%v w%d b%v pre%d/%d", c.K, c.Kinds, c.Perm, c.Workers, c.InBurst, c.PreUpd, c.PreNth), "labels": lk, "last_kind": lastKind, "last_at": int64(lastAt), "burst": int64(burst), "k": c.K, "perm": c.Perm, "kinds": c.Kinds, "workers": c.Workers, "in_burst": c.InBurst}
 	return p
 }
 
@@ -278,11 +309,11 @@ func init() {
 		Gen: c14Gen, Check: c14Check,
 		Count: func(tier string) int {
 			if tier == "thorough" {
-				return len(c14Cases) + 3000
+				return len(c14Cases) + len(c14Pre) + 3000
 			}
-			return len(c14Cases)
+			return len(c14Cases) + len(c14Pre)
 		},
-		Rule:        "case n < 720: the n-th element of {k=2,3} x {refresh,resolve,refire}^k x all k! release orders of the ingestion workers x {2,3,4,8} workers (complete enumeration); beyond that sampled k=4..5 with the group-creating update optionally inside the burst. Non-trivial: the settled GET /alerts/groups was answered and at least one oracle clause was evaluated; distinct: by abstract trace hash.",
+		Rule:        "case n < 720: the n-th element of {k=2,3} x {refresh,resolve,refire}^k x all k! release orders of the ingestion workers x {2,3,4,8} workers (complete enumeration); cases 720..1151: bursts of two updates where, in addition, the worker processing one of them is preempted at its j-th store-lock acquisition (j = 0..5, both updates, both release orders, 2 and 4 workers); beyond that sampled k=4..5 with the group-creating update optionally inside the burst. Non-trivial: the settled GET /alerts/groups was answered and at least one oracle clause was evaluated; distinct: by abstract trace hash.",
 		Real:        []string{"app.New wiring", "api/v2 handlers", "provider/mem", "dispatch (ingestion workers, aggregation groups)", "notify pipeline", "webhook notifier + net/http client"},
 		Stub:        []string{"clock (synctest)", "receiver endpoint (net.Pipe + scripted http.Server)", "worker scheduling decided by hold rules at verifhook.Yield(dispatch.worker.recv)"},
 		Assumptions: []string{"the release order of ingestion workers is imposed by content-keyed delays at one yield point between channel receive and routeAlert; interleavings inside routeAlert are whatever one P produces"},
